@@ -41,7 +41,7 @@ class OverSend(BaseException):
     retry loop that is too generous shows up as a violation instead of blowing up the choice tree"""
 
 
-CODESETS = {'none': None, 'empty': set(), 'one': {C1}, 'two': {C1, C2}}
+CODESETS = {'none': None, 'empty': set(), 'one': {C1}, 'two': {C1, C2}, 'zero': {0}}
 EXCSETS = {'none': None, 'empty': set(), 'one': {E1}, 'two': {E1, E2}, 'wide': {Exception}}
 
 
@@ -178,6 +178,8 @@ def outcome_menu(cfg):
     if not notif:
         if rk == 'batch':
             menu += ['level_listed', 'level_listed2', 'level_unlisted']
+            if cfg.get('elem_errors'):
+                menu += ['elem_listed']      # a well-formed response array in which ONE call failed with a listed code
         else:
             menu += ['code_listed', 'code_listed2', 'code_unlisted']
     if notif:
@@ -218,9 +220,15 @@ def body_for(cfg, name, k, same=None):
         return json.dumps(docs if rk == 'batch' else docs[0])
     if name in ('code_listed', 'code_listed2', 'code_unlisted'):
         code = {'code_listed': C1, 'code_listed2': C2, 'code_unlisted': CU}[name]
+        if name == 'code_listed' and cfg.get('zero_code'):
+            code = 0
         return json.dumps(resp(ids[0], error=err(code)))
+    if name == 'elem_listed':
+        return json.dumps([resp(ids[0], error=err(C1)), resp(ids[1], result={'attempt': k, 'id': ids[1]})])
     if name in ('level_listed', 'level_listed2', 'level_unlisted'):
         code = {'level_listed': C1, 'level_listed2': C2, 'level_unlisted': CU}[name]
+        if name == 'level_listed' and cfg.get('zero_code'):
+            code = 0
         return json.dumps(resp(None, error=err(code)))
     if name == 'exc_same':
         return same
@@ -269,6 +277,15 @@ def execute(cfg, env, horizon=12):
             script.append(('HORIZON', None))
             raise EU('horizon')
         name = menu[env.choose(('attempt', state['tag'], k), len(menu))]
+        if cfg.get('attempt_takes'):
+            # the attempt itself takes (virtual) time - longer than any pause that follows it
+            sleeplog.advance(cfg['attempt_takes'])
+            try:
+                lp = asyncio.get_running_loop()
+                if hasattr(lp, '_vtime'):
+                    lp._vtime += cfg['attempt_takes']
+            except RuntimeError:
+                pass
         b = body_for(cfg, name, k, same=state['same'])
         script.append((name, b))
         if isinstance(b, BaseException):
